@@ -224,6 +224,10 @@ def materialise(scn, base):
                 f.write(file_bytes(rng, "tiny"))
             extra.append((rel, "tiny"))
         os.symlink("real0", os.path.join(root, "lnk0"))
+        if scn["gid"] % 2 == 1:
+            # a link whose target does not exist: under -L both walkers report it (status 2) and go on
+            os.symlink("no-such-target", os.path.join(root, "real0", "dangling"))
+            scn["gone"] = True
         if scn.get("selfloop"):
             # a link to its own directory: with -L both walkers must report the loop once and list nothing twice
             os.symlink(".", os.path.join(root, "real0", "self"))
